@@ -236,8 +236,12 @@ def run(ctx):
         ctx.check(not bad, "C10-R2", "apply:true-only-after-or-or-walk",
                   "every `true` return of apply() is preceded by the mask OR or by an add_bias walk",
                   "TokenizerSlice::apply can report 'applied' without having contributed its tokens", site=ap.where(bad[0]) if bad else None)
-    # operand of the residual walk is one of the residual tries
+    # operand of the residual walk is one of the residual tries (walks of un-applied children — under the
+    # `!applied_indices.contains(idx)` guard — are judged separately below)
+    g_unapplied = L.guard_edges(ap, lambda e: e[0] == "call" and e[1].endswith("::contains"), False)
     for bi in walks:
+        if g_unapplied and bi not in ap.reachable(0, cut_edges=g_unapplied):
+            continue
         e = ap.expr(ap.blocks[bi]["term"]["args"][0])
         fs = F.place_fields(e[1]) if e[0] in ("ref", "place") else []
         txt = repr(e)
@@ -278,11 +282,28 @@ def run(ctx):
     else:
         ctx.violation("C10-R2", "anchor-missing:apply.to_apply", "local to_apply not found in TokenizerSlice::apply")
     # un-applied children are walked in the multi-child arm
-    ta_calls = ap.call_blocks(TS + "::trie_apply")
+    # (the walk is `child.trie_apply(..)`, or — when that helper is inlined — `child.trie_with_children.add_bias(..)`)
     g = L.guard_edges(ap, lambda e: e[0] == "call" and e[1].endswith("::contains"), False)
-    still = L.dominated_by_cut(ap, ta_calls, g) if g else ta_calls
-    ctx.check(bool(ta_calls) and bool(g) and not still, "C10-R2", "apply:unapplied-children-walked",
-              "children not in applied_indices are walked with trie_apply", "apply no longer walks the children it did not apply", site=ap.where())
+    ta_calls = ap.call_blocks(TS + "::trie_apply")
+    in_loop = set()
+    for (_, t) in g:
+        in_loop |= ap.reachable(t, cut_edges=[])
+    direct, wrong = [], []
+    for bi, t in ap.calls():
+        if t["f"].get("def") != TRIE + "add_bias" or not g:
+            continue
+        if bi in ap.reachable(0, cut_edges=g):
+            continue   # reachable without `!applied_indices.contains(idx)`: not the un-applied walk
+        e = ap.expr(t["args"][0])
+        last = F.place_fields(e[1])[-1:] if e[0] in ("ref", "place") else []
+        (direct if last == [(TS, "trie_with_children")] else wrong).append(bi)
+    walks = ta_calls + direct
+    still = L.dominated_by_cut(ap, walks, g) if g else walks
+    ctx.check(bool(walks) and bool(g) and not still and not wrong, "C10-R2", "apply:unapplied-children-walked",
+              "children not in applied_indices are walked whole (trie_apply / trie_with_children.add_bias)",
+              "apply no longer walks the children it did not apply with their full trie (trie_with_children): %s" % (
+                  "an un-applied child is walked with a residual trie, so the tokens of the slices nested under it are neither OR-ed in nor walked"
+                  if wrong else "no guarded walk found"), site=ap.where(wrong[0]) if wrong else ap.where())
     # the optional short-cut around that loop may only be `applied_indices.len() < children.len()` (or equivalent)
     loop_guards = []
     for bi, e, targets, otherwise in ap.switch_edges():
@@ -302,13 +323,17 @@ def run(ctx):
         ctx.check(shape_ok, "C10-R2", "apply:unapplied-loop-guard", "the loop over un-applied children is skipped only when all children were applied (len < len)",
                   "the guard around the un-applied-children walk is `%s`: children can be skipped although they were not applied" % F.fmt_expr(cur),
                   site=ap.where(bi))
-    tap = ctx.body(TS + "::trie_apply")
-    w = [bi for bi, t in tap.calls() if t["f"].get("def") == TRIE + "add_bias"]
-    ok = False
-    if w:
-        e = tap.expr(tap.blocks[w[0]]["term"]["args"][0])
-        ok = e[0] in ("ref", "place") and F.place_fields(e[1])[-1:] == [(TS, "trie_with_children")]
-    ctx.check(ok, "C10-R2", "trie_apply:walks-full-slice", "trie_apply walks trie_with_children", "trie_apply walks something else", site=tap.where())
+    tap = P.bodies.get(TS + "::trie_apply")
+    if tap is not None:
+        w = [bi for bi, t in tap.calls() if t["f"].get("def") == TRIE + "add_bias"]
+        ok = False
+        if w:
+            e = tap.expr(tap.blocks[w[0]]["term"]["args"][0])
+            ok = e[0] in ("ref", "place") and F.place_fields(e[1])[-1:] == [(TS, "trie_with_children")]
+        ctx.check(ok, "C10-R2", "trie_apply:walks-full-slice", "trie_apply walks trie_with_children", "trie_apply walks something else", site=tap.where())
+    else:
+        ctx.check(bool(direct), "C10-R2", "trie_apply:walks-full-slice", "the un-applied walk uses trie_with_children directly (helper inlined)",
+                  "neither trie_apply nor a direct trie_with_children walk exists", site=ap.where())
     # fall-back arm of compute_bias
     fw = [bi for bi, t in cb.calls() if t["f"].get("def") == TRIE + "add_bias"]
     if ctx.floor("C10-R2", "fall-back walk in compute_bias", len(fw), 1):
